@@ -478,6 +478,26 @@ def s3_compare(case):
     return 'same', ''
 
 
+def s4_compare(case):
+    """the model of reorder.go (run on the model's assembled list) against the implementation's S4 dump: same order, same
+    providers given up on"""
+    m = next((l for l in case.mlines if l.startswith('m4o ')), None)
+    hdr, fs = dump_funcs(case, 'S4')
+    if m is None or fs is None:
+        return 'skip', ''
+    d = kv(m)
+    if d.get('fuel') != 'ok':
+        return 'diff', 'model of topo.run ran out of fuel'
+    got = ','.join(f['id'] for f in fs) or '-'
+    if d['order'] != got:
+        return 'diff', 'order: impl %s model %s' % (got, d['order'])
+    gave = ','.join(f['id'] for f in fs if 'dependencies_not_met' in f.get('why', '')) or '-'
+    mg = ','.join(sorted(d['gaveup'].split(','), key=lambda x: [f['id'] for f in fs].index(x) if x != '-' and x in [f['id'] for f in fs] else -1))
+    if mg != gave:
+        return 'diff', 'given up on: impl %s model %s' % (gave, d['gaveup'])
+    return 'same', ''
+
+
 # ---------------------------------------------------------------- C06 static vs per-invocation
 
 def stage_stats(ctx, cases, cmpfn, label, found=False):
@@ -1381,6 +1401,7 @@ def c17(ctx):
         corpus = load_corpus(ctx, 'C17')
         allc = corpus + cases
         s7_check(ctx, 'C17', allc)
+        stage_stats(ctx, allc, s4_compare, 'S4')
         stage_stats(ctx, allc, s5_compare, 'S5')
         stage_stats(ctx, allc, s6_compare, 'S6')
         for c in allc:
@@ -1391,6 +1412,11 @@ def c17(ctx):
             if d.get('reorder') != '1':
                 continue
             st['validated'] += 1
+            h3, f3 = dump_funcs(c, 'S3'); h4, f4 = dump_funcs(c, 'S4')
+            if f3 and f4 and [f['id'] for f in f3] != [f['id'] for f in f4]:
+                st['reorder-changed-the-order'] += 1
+            if f4 and any('dependencies_not_met' in f.get('why', '') for f in f4):
+                st['reorder-gave-up-on-some'] += 1
             # statistic only: an included provider listed behind the final function (reorder gave up on it, the include pass took it
             # back).  Not a violation by itself: if the position-based bookkeeping is wrong for it, checkWF / the Spec comparison say so.
             hdr7, fs7 = dump_funcs(c, 'S7')
